@@ -630,7 +630,8 @@ func vRandomBehaviour(rnd *rand.Rand) []map[string]any {
 		return map[string]any{"type": t, "max": maxes[rnd.Intn(2)], "members": subset(t)}
 	}
 	owned := []string{"cali40a", "cali40b", "cali40c", "cali40d", "cali40old", "cali4t0", "cali4t1", "cali4t5", "felix-4old"}
-	foreign := []string{"other", "cali60a", "calico-x"}
+	// foreign names, also ones that merely contain a Felix prefix at a non-leading position
+	foreign := []string{"other", "cali60a", "calico-x", "bak-cali40a", "fw-felix-4-allow", "x-cali4t3", "my-cali60s", "n-felix-4"}
 	ntyp := func(n string) string {
 		if len(n) == 7 && n[:6] == "cali40" {
 			if t, ok := typ[n[6:]]; ok {
